@@ -7,6 +7,7 @@ import random
 from typing import Any, Dict
 
 from hivemon.checks.common import run_check, std_summary
+from hivemon.gen import graph as G
 
 
 def adjacency(graph):
@@ -252,6 +253,10 @@ def build_cases(tier, seed):
         if j % 6 == 5:
             net.update({"parallel": rnd.choice([0.1, 0.25]), "parallel_differs": True})
             net.pop("stubs", None)
+        if j % 3 == 1:
+            net["latlon_keys"] = True
+        if j % 4 == 1:
+            net["origin"] = list(G.PLACES[(j // 4) % len(G.PLACES)])  # a town elsewhere on the globe (across the 180th meridian, far north, ...)
         cases.append({"engine": "c14_sweep", "id": f"C14-grid{j}", "seed": seed * 1000 + j, "net": net, "n": per})
     if tier == "quick":
         for j in range(8):
